@@ -153,7 +153,7 @@ fn getvalues_case<const N: usize>() {
     std::mem::forget(out);
 }
 
-// @harness name=c04_getvalues_state_2 props=C04,C03 tier=quick timeout=900 rmbody=ioerr,nogrow mem=24 est=11 dead=3 unwindset=ProtocolVariables>::extend::<:3;NVIter<&.u8.>.as.std::iter::Iterator>::try_fold::<:3;verif_kani::getvalues_case::<:3
+// @harness name=c04_getvalues_state_2 props=C04,C03,C06 tier=quick timeout=900 rmbody=ioerr,nogrow mem=24 est=11 dead=3 unwindset=ProtocolVariables>::extend::<:3;NVIter<&.u8.>.as.std::iter::Iterator>::try_fold::<:3;verif_kani::getvalues_case::<:3
 // @bound GetValuesState<HeaderState>: any accumulated set, payload_rem 0..65535, padding_rem 0..255, input of exactly 2 symbolic bytes (shorter bodies via payload_rem); parse_name / write_response replaced by the E5 models; E8 (io::Error drop = no-op)
 // @functions request::GetValuesState::drive, NVIter<&[u8]>::next, parser::parse_nv_var
 #[kani::proof]
@@ -162,7 +162,7 @@ fn getvalues_case<const N: usize>() {
 #[kani::stub(fcgi::ProtocolVariables::write_response, crate::verif_kani::write_response_model)]
 fn c04_getvalues_state_2() { getvalues_case::<2>(); }
 
-// @harness name=c04_getvalues_state_3 props=C04,C03 tier=quick timeout=900 rmbody=ioerr,nogrow mem=24 est=11 dead=1 unwindset=ProtocolVariables>::extend::<:3;NVIter<&.u8.>.as.std::iter::Iterator>::try_fold::<:3;verif_kani::getvalues_case::<:3
+// @harness name=c04_getvalues_state_3 props=C04,C03,C06 tier=quick timeout=900 rmbody=ioerr,nogrow mem=24 est=11 dead=1 unwindset=ProtocolVariables>::extend::<:3;NVIter<&.u8.>.as.std::iter::Iterator>::try_fold::<:3;verif_kani::getvalues_case::<:3
 // @bound GetValuesState<HeaderState>: any accumulated set, payload_rem 0..65535, padding_rem 0..255, input of exactly 3 symbolic bytes (shorter bodies via payload_rem); parse_name / write_response replaced by the E5 models; E8 (io::Error drop = no-op)
 // @functions request::GetValuesState::drive, NVIter<&[u8]>::next, parser::parse_nv_var
 #[kani::proof]
